@@ -157,6 +157,22 @@ fn transforms(f: &File) -> Vec<(String, File)> {
                     }
                 }
             }
+            // ---- a key of the left-hand query -> interpolated string variable `a.%v` (legal at every enclosing scope)
+            if let Clause::Unary { q, .. } | Clause::Binary { q, .. } = &cl {
+                if !matches!(q.first(), Some(Part::Var(_))) {
+                    for j in 1..q.len() {
+                        if let Part::Key(kname) = &q[j] {
+                            let mut g = f.clone();
+                            match &mut cnf_at(&mut g, &s.path)[s.li][s.ai] {
+                                Clause::Unary { q, .. } | Clause::Binary { q, .. } => q[j] = Part::Var(fresh.into()),
+                                _ => {}
+                            }
+                            add_let(&mut g, sc, Let { name: fresh.into(), val: Arg::Lit(s_(kname)) }, false);
+                            out.push((format!("key-interpolation{}@{}", if j + 1 == q.len() { "-last" } else { "" }, tag), g));
+                        }
+                    }
+                }
+            }
             // ---- whole left-hand query -> variable: legal where the scope's context is the clause's context
             let (q, is_empty_op) = match &cl {
                 Clause::Unary { q, op, .. } => (q.clone(), *op == UnOp::Empty),
@@ -309,6 +325,16 @@ pub fn run(tier: &str) -> i32 {
             }
         }
     }
+    // unary checks on keyed paths whose value may be an empty list / struct / string (key interpolation must not change them)
+    for q in [vec![key("a"), key("b")], vec![key("a"), key("a")], vec![key("a"), Part::All, key("b")], vec![key("a"), Part::Star], vec![key("a"), key("b"), Part::All]] {
+        for op in [UnOp::Empty, UnOp::Exists, UnOp::IsList, UnOp::IsString, UnOp::IsStruct] {
+            for opneg in [false, true] {
+                for some in [false, true] {
+                    base.push(file1(rule("r0", vec![vec![un(q.clone(), op, opneg).with_some(some)]])));
+                }
+            }
+        }
+    }
     // `some` variables with partly unresolved values referenced from two rules
     let docs = docs_quick();
     let mut docs2 = docs.clone();
@@ -317,6 +343,10 @@ pub fn run(tier: &str) -> i32 {
         m(vec![("a", l(vec![i(1), i(1)]))]),
         m(vec![("a", s("prod")), ("b", i(1))]),
         m(vec![("a", l(vec![m(vec![("x", i(1))]), m(vec![("x", i(1))])]))]),
+        m(vec![("a", m(vec![("b", l(vec![]))]))]),
+        m(vec![("a", m(vec![("b", m(vec![])), ("a", s(""))]))]),
+        m(vec![("a", m(vec![("b", s("")), ("a", l(vec![]))]))]),
+        m(vec![("a", l(vec![m(vec![("b", l(vec![]))]), m(vec![("b", l(vec![i(1)]))])]))]),
     ]);
     let djs: Vec<String> = docs2.iter().map(|d| d.json()).collect();
     let nbase = base.len();
